@@ -37,11 +37,14 @@ def run(ctx):
                 ctx.violation('generator', 'utils::RandomGenerator<> does not deliver the std::mt19937 / uniform_real_distribution<double> stream of its seed', {'trace': tr[0][:10]})
         # reference stream per seed via an extra harness run
         seeds = sorted(set(m['seed'] for m in metas.values()))
-        need = 6000
+        needs = {}
+        for m in metas.values():
+            # what r realizations can consume at most: affinity + both membership matrices each
+            needs[m['seed']] = max(needs.get(m['seed'], 0), m['r'] * (len(m['aff']) + 2 * m['N'] * m['K']) + 16)
         wd = vf.workdir()
         import os
         cp = os.path.join(wd, 'ref.cases')
-        open(cp, 'w').write('\n'.join('RNG %d %d %d' % (i, s, need) for i, s in enumerate(seeds)) + '\n')
+        open(cp, 'w').write('\n'.join('RNG %d %d %d' % (i, s, needs[s]) for i, s in enumerate(seeds)) + '\n')
         vf.run_impl(ctx.bdir, cp, cp + '.out')
         tr, _ = vf.parse_trace(cp + '.out')
         ref = {}
